@@ -1,5 +1,5 @@
 """C10: coroutine tasks map sender results faithfully and always run their cleanup (plan interpreter, det)."""
-from .. import core, coro_check
+from .. import core, coro_check, mt_check
 
 TIERS = {"quick": (60, 70), "thorough": (600, 160)}
 
@@ -10,9 +10,9 @@ ASSUME = [
     "an asynchronous cleanup task, tracked locals, throw, plain awaitable (await_transform/as_sender round trip), "
     "stop_if_requested); <=4 plans, <=7 steps each, nesting <=4",
     "leaf completions, scheduler hops and stop requests are serialised by the harness driver on one thread; a stop "
-    "request 'from another thread' is produced as a request at every driver position (before connect/start, inside "
-    "each leaf start, between any two completions, after the end), not as a hardware race: the refCount_/whoToContinue_ "
-    "join of the stop-request thunk is exercised in both of its orders but not under true concurrency",
+    "request is produced at every driver position (before connect/start, inside each leaf start, between any two "
+    "completions, after the end) in the deterministic part; the multi-threaded part (coromt) races a real stop request from "
+    "another thread against the task on natural + perturbed OS schedules (no hook sites inside task.hpp yet)",
     "the reference model (vfpy/coro_model.py) encodes docs/api_reference.md and the comments of task.hpp; cleanup "
     "actions always succeed (a failing/cancelling cleanup terminates by design)",
     "the receiver may destroy the operation state and free its stop source inside its completion",
@@ -35,6 +35,32 @@ def run(tier, seed, verdict):
         "ignore), plus seeded mixes (<=%d per flavour); receiver destroys the operation / frees its stop source inside the "
         "completion in half of them. evaluations = scenario executions; distinct_nontrivial = distinct (plan set, observed "
         "order of driver steps, stop deliveries, leaf completions, cleanup actions, frame destructions)" % (n, budget))
+    # multi-threaded part: the stop request really comes from another thread (stop_when's trigger timer on a second
+    # context) while the task tree runs on its own timed context; ASan+UBSan and TSan builds
+    res = mt_check.MtResult()
+    it = 1500 if tier == "quick" else 60000
+    for variant in ("asan20d", "tsan20d"):
+        n = it if variant.startswith("asan") else it // 2
+        a = [["seed=%d" % (seed * 100 + i), "iters=%d" % n, "perturb=%d" % (i % 2)]
+             for i in range(4 if tier == "quick" else 8)]
+        mt_check.run_mt("C10", "coromt", variant, a, verdict, res, timeout=1800)
+    st = res.stats
+    missing = [k for k in ("outcome_value", "outcome_done", "cleanups_run", "frames_total") if not st.get(k)]
+    if missing:
+        raise core.HarnessFailure("coromt observed none of: %s" % missing)
+    cov["mt_rounds"] = st.get("rounds_total", 0)
+    cov["mt_outcomes"] = {k: v for k, v in st.items()}
+    cov["mt_hook_hits"] = res.hooks
+    cov["sanitizer"] = {"asan_runs": res.san_runs["asan"], "tsan_runs": res.san_runs["tsan"],
+                        "tsan_reports": res.tsan_reports}
+    cov["evaluations"] += st.get("rounds_total", 0)
+    cov["rule"] += (" Multi-threaded part (harness/src/coromt.cpp): each round runs a seeded task tree (depth<=2, timers, "
+                    "nested tasks awaited directly and through then(), at_coroutine_exit actions, optionally a final "
+                    "one-hour timer that only a delivered stop can end) on timed context A under "
+                    "sync_wait(on(A, stop_when(task, schedule_after(B, 0..400us)))), so the stop request arrives from "
+                    "context B's thread at a random point; checked per round: one outcome, value impossible when the last "
+                    "step never finishes, no frame alive afterwards, cleanups registered == run, reverse order per frame, "
+                    "every resumption on A's thread; ASan+UBSan and TSan builds.")
     if cov["evaluations"] and cov["inconclusive"] > 0.05 * cov["evaluations"]:
         raise core.HarnessFailure("too many inconclusive scenarios")
     return cov, list(ASSUME), "exploration"
